@@ -194,7 +194,8 @@ def collect (fileName text nsName : Bytes) (nsAe : Autoescape) : List Cmd → Op
         let t : Tmpl := { name := name, params := docParams ++ hps, body := .mk bpos body, autoescape := ae,
                           nsName := nsName, nsAutoescape := nsAe, pos := pos, file := fileName, text := text }
         (collect fileName text nsName nsAe rest (some c)).map (t :: ·)
-    | _ => collect fileName text nsName nsAe rest (some c)
+    | .namespace .. | .soyDoc .. | .rawText .. => collect fileName text nsName nsAe rest (some c)
+    | _ => none                                   -- a command outside of a template
 
 /-- appending `ts` one by one never meets a name that is already there -/
 def fresh : Reg → List Tmpl → Bool
@@ -249,9 +250,12 @@ theorem addTemplates_eq (fn text ns : Bytes) (ae : Autoescape) : ∀ (cmds : Lis
       cases prev with
       | none => exact key _
       | some p => cases p <;> exact key _
-    | _ => unfold addTemplates collect; exact addTemplates_eq fn text ns ae rest _ reg
+    | «namespace» => unfold addTemplates collect; exact addTemplates_eq fn text ns ae rest _ reg
+    | soyDoc => unfold addTemplates collect; exact addTemplates_eq fn text ns ae rest _ reg
+    | rawText => unfold addTemplates collect; exact addTemplates_eq fn text ns ae rest _ reg
+    | _ => unfold addTemplates collect; rfl
 
-/-- the templates a file contributes (`none`: no namespace, or soydoc and header params together) -/
+/-- the templates a file contributes (`none`: no namespace, soydoc and header params together, or a command outside of every template) -/
 def fileTmpls (f : SoyFile) : Option (List Tmpl) :=
   match findNamespace f.body with
   | none => none
